@@ -3,25 +3,41 @@
 Correspondence of lean/Hgxv/Model/C08.lean with hypergraphx.measures.degree.*, hypergraphx.utils.cc.* and the
 Hypergraph methods that forward to them, plus independent oracles (counting / union-find straight from the
 property's words) on the implementation's answers."""
+import collections
 import itertools
 import signal
+import warnings
+import zlib
+
+import numpy as np
 
 import hgxv
 
-RULE = ("random Hypergraph instances (0-9 nodes from a sparse int or str universe mapped to rank, 0-10 hyperedges of size "
+RULE = ("random Hypergraph instances (0-9 nodes, 0-10 hyperedges of size "
         "1-5 incl. singletons, explicit isolated nodes, nodes/hyperedges inserted in random order, repeated insertions, 30% of the histories with remove_edge / remove_node(keep_edges) / re-insertion), "
         "each instance reached through a PROGRAM over up to 4 objects (65% of the cases): temporary hyperedges removed again (id gaps), removal + re-insertion, "
         "copy() / subhypergraph() / constructor / add_edges / remove_edges / remove_nodes / clear, the ORIGINAL of a copy mutated afterwards, the COPY of an original "
         "mutated afterwards, the same object queried - mutated in place (also with equal node/hyperedge counts) - queried again; every object is checked "
         "at the end of the program and at intermediate points against the content the history defines (independent shadow) - one check of one object = one case; "
-        "EVERY node (the falsy labels 0 and '' are forced into 60% of the cases), every filter value on its own: none, size in 0..7, order in 0..6 (size 0 and values above the largest hyperedge match nothing), "
-        "each through the Hypergraph method and the module-level function; DirectedHypergraph / TemporalHypergraph / "
+        "LABELS ARE OBJECTS: one label universe per program - small ints, sparse ints, big ints (257 .. 10**30, beyond 2**53 / 2**63, negative), run-time strings (incl. numeric "
+        "strings, '10' < '9'), floats next to ints (incl. +-inf), bytes, int tuples (incl. ()), chains of frozensets (incl. frozenset()), tuples / frozensets NEXT TO their "
+        "own members as nodes, strings next to ints (hyperedges within one comparable group; tuple labels for Hypergraph / Directed only) - and EVERY call of the implementation (history op or query) gets a freshly "
+        "constructed equal object per label (int(str(x)), the equal float, numpy.int64 / int32 / float64 / str_ where numpy compares exactly, bool for 0/1, re-joined strings, rebuilt tuples / "
+        "frozensets / bytes); hyperedges, sides of directed hyperedges, node lists and hyperedge lists come as tuple, list, set, frozenset, range, numpy array, iterator, generator, dict, dict "
+        "keys, deque (what the unchanged entry point takes), handed-in containers are scribbled over after the call, every returned list / set / dict is emptied and scribbled over after it was "
+        "read and everything is asked again; the filter is given by keyword, by position (the unchanged signature's order), with the other one None, as int or numpy.int64; "
+        "EVERY node (the falsy labels 0 / '' / () / frozenset() / b'' are forced into 60% of the cases), every filter value on its own: none, size in 0..7, order in 0..6 (size 0 and values above the largest "
+        "hyperedge match nothing) plus two rare values per check (order=-1 = size 0, negative, 256/257, 2**31, 2**63, 10**30), "
+        "each through the Hypergraph method and the module-level function, plus the two primitives get_neighbors / get_incident_edges; DirectedHypergraph / TemporalHypergraph / "
         "MultiplexHypergraph instances of the same shape for the degree functions; thorough adds ALL 32768 hypergraphs on "
-        "4 nodes. A case = one hypergraph (all its nodes and filters), distinct by (class, node order, hyperedge list); "
+        "4 nodes. A case = one hypergraph (all its nodes and filters), distinct by (class, node order, hyperedge list) in ranks; "
         "non-trivial when for some filter there are >= 2 components, one of them with >= 2 nodes, and >= 1 hyperedge is "
         "excluded by that filter (for the degree-only classes: some filter excludes and some filter keeps a hyperedge)")
 ASSUMPTIONS = ["hyperedges are duplicate-free node tuples over nodes of the hypergraph (what get_edges() returns)",
-               "labels are mapped to their rank in sorted order before they reach the model",
+               "labels are mapped to their rank in sorted order (per comparable group) before they reach the model: labels enter only through ==, hash and < ",
+               "equal objects of different type (1, 1.0, True, numpy.int64(1); 'ab', numpy.str_('ab')) are ONE label, as for a Python dict; numpy scalars only where numpy "
+               "compares them exactly (|x| <= 2**53, integer-valued float64 below 2**53) and only in a universe of one comparable group (numpy.int64(5) == (0, 1) is an array); NaN is no label",
+               "a hyperedge holds labels of one comparable group (add_edge sorts it); a hypergraph may hold several groups (a tuple label next to its int members)",
                "the content of an object is what its history (add/remove/copy/subhypergraph/clear, set semantics as documented) defines; "
                "get_nodes()/get_edges() are compared with that content at every check (a difference is reported, the container itself is C01-C04)",
                "both order= and size= given is outside the property (the code rejects it)"]
@@ -32,6 +48,10 @@ BUDGET_S = {"quick": 75, "thorough": 1500}
 # every value on its own (each is compared with the definition, not with the equivalent other keyword), including the
 # falsy / boundary ones: order=0, size=1, size=0 (matches nothing), values above the maximal hyperedge size
 FILTERS = [None] + [("size", k) for k in range(0, 8)] + [("order", k) for k in range(0, 7)]
+# rare values (two of them per check): order=-1 is size=0 (only the empty hyperedge has it), negative sizes and huge values
+# match nothing
+RARE_FILTERS = [("order", -1), ("order", -1), ("size", -1), ("order", -2), ("size", 10 ** 30), ("order", 10 ** 30), ("size", 2 ** 63),
+                ("order", 2 ** 31), ("size", 256), ("order", 257)]
 
 
 class Timeout(BaseException):
@@ -65,20 +85,379 @@ def want_size(f):
 
 
 # ------------------------------------------------------------------------------------------
+# labels are OBJECTS.  A case stores its labels in a JSON form (enc_label); the canonical label of a node is decoded once
+# per case, and EVERY call of the implementation gets a freshly constructed object equal to it (fresh), inside a container
+# whose type is chosen per call (Pres).  Universes: small / sparse / big ints (beyond the small-int cache, beyond 2**53,
+# 2**63, up to 10**30, negative), run-time strings (incl. numeric strings: '10' < '9'), floats next to ints, bytes, int
+# tuples (incl. the falsy ()), chains of frozensets (incl. the falsy frozenset()), tuples / frozensets NEXT TO their own
+# members as nodes (hyperedges stay within one comparable group).
+
+def grp(x):
+    """comparable group of a label (sorted() inside a hyperedge needs one group)"""
+    if isinstance(x, tuple):
+        return 2
+    if isinstance(x, frozenset):
+        return 3
+    if isinstance(x, str):
+        return 1
+    if isinstance(x, bytes):
+        return 4
+    return 0
+
+
+def lkey(x):
+    return (grp(x), x)
+
+
+def enc_label(x):
+    """JSON form of a label: ints and strings as they are, floats by repr, tuples / frozensets / bytes tagged"""
+    if isinstance(x, tuple):
+        return {"t": [enc_label(y) for y in x]}
+    if isinstance(x, frozenset):
+        return {"s": [enc_label(y) for y in sorted(x, key=lkey)]}
+    if isinstance(x, bytes):
+        return {"b": x.decode("latin-1")}
+    if isinstance(x, float):
+        return {"f": repr(x)}
+    return x
+
+
+def dec_label(j):
+    if isinstance(j, dict):
+        if "f" in j:
+            return float(j["f"])
+        if "b" in j:
+            return j["b"].encode("latin-1")
+        if "s" in j:
+            return frozenset(dec_label(y) for y in j["s"])
+        return tuple(dec_label(y) for y in j["t"])
+    return j
+
+
+def map_op(kind, op, fn):
+    """the op with fn applied to every label in it"""
+    t = op[0]
+    if t in ("n", "rn"):
+        return [t, fn(op[1])] + list(op[2:])
+    if t in ("e", "re"):
+        if kind == "D":
+            return [t, [[fn(x) for x in op[1][0]], [fn(x) for x in op[1][1]]]] + list(op[2:])
+        return [t, [fn(x) for x in op[1]]] + list(op[2:])
+    if t in ("E", "RE", "ctor"):
+        return [t, [[fn(x) for x in e] for e in op[1]]] + list(op[2:])
+    if t == "RN":
+        return [t, [fn(x) for x in op[1]]] + list(op[2:])
+    if t == "sub":
+        return [t, op[1], [fn(x) for x in op[2]]]
+    return list(op)
+
+
+def enc_case(case):
+    return {**case, "ops": [map_op(case["kind"], op, enc_label) for op in case["ops"]]}
+
+
+class Mini:
+    """tiny deterministic stream, one per call: the presentation of a call depends on (case["pres"], what is called) only,
+    so a replay asks every call the same way whatever the implementation did before"""
+    M = (1 << 64) - 1
+
+    def __init__(self, seed, text):
+        self.s = ((zlib.crc32(text.encode()) << 21) ^ (int(seed) * 0x9E3779B97F4A7C15) ^ 0x5851F42D4C957F2D) & self.M
+        self.random()
+        self.random()
+        self.s0 = self.s
+        self.npok = True
+
+    def random(self):
+        self.s = (self.s * 6364136223846793005 + 1442695040888963407) & self.M
+        return (self.s >> 11) / 9007199254740992.0
+
+    def randrange(self, n):
+        return int(self.random() * n)
+
+    def choice(self, xs):
+        return xs[int(self.random() * len(xs))]
+
+    def fork(self, k):
+        """an independent stream for sub-call k (splitmix64 of the state this stream started from)"""
+        m = Mini.__new__(Mini)
+        z = (self.s0 + (k + 1) * 0x9E3779B97F4A7C15) & self.M
+        z = ((z ^ (z >> 30)) * 0xBF58476D1CE4E5B9) & self.M
+        z = ((z ^ (z >> 27)) * 0x94D049BB133111EB) & self.M
+        m.s = m.s0 = z ^ (z >> 31)
+        m.npok = self.npok
+        return m
+
+    def shuffled(self, xs):
+        xs = list(xs)
+        for i in range(len(xs) - 1, 0, -1):
+            j = self.randrange(i + 1)
+            xs[i], xs[j] = xs[j], xs[i]
+        return xs
+
+
+def fresh(x, r):
+    """an object equal to x (same hash) that is constructed now - never the object stored in the hypergraph"""
+    if isinstance(x, tuple):
+        return tuple([fresh(y, r) for y in x])
+    if isinstance(x, frozenset):
+        return frozenset([fresh(y, r) for y in x])
+    npok = r.npok
+    if isinstance(x, np.generic):       # a label object the implementation handed back: start from the plain Python value
+        x = x.item()
+    if isinstance(x, str):
+        y = "".join(list(x))
+        return np.str_(y) if npok and r.random() < 0.05 else y
+    if isinstance(x, bytes):
+        return bytes(bytearray(x))
+    if isinstance(x, bool):
+        return x
+    if isinstance(x, int):
+        c = r.random()
+        if c < 0.45:
+            return int(str(x))
+        if c < 0.70:
+            try:
+                f = float(x)
+                if int(f) == x:
+                    return f
+            except OverflowError:
+                pass
+        elif c < 0.92:
+            if npok and abs(x) <= 2 ** 53:     # beyond, numpy compares an int64 with a float after rounding: not an equal object
+                return np.int32(x) if abs(x) < 2 ** 31 and r.random() < 0.3 else np.int64(x)
+        elif c < 0.97:
+            if x in (0, 1):
+                return bool(x)
+        return int(str(x))
+    if isinstance(x, float):
+        return np.float64(x) if npok and r.random() < 0.25 else float(repr(x))
+    return x
+
+
+JUNK = "C08-junk"
+
+
+def scribble(x, depth=0):
+    """what a caller may do with a container that is HIS (a returned list / set / dict, a container he handed in):
+    empty it and put something else in"""
+    try:
+        if isinstance(x, list):
+            if depth == 0:
+                for y in x:
+                    scribble(y, 1)
+            x.clear()
+            x.append(JUNK)
+        elif isinstance(x, (set, collections.deque)):
+            x.clear()
+            (x.add if isinstance(x, set) else x.append)(JUNK)
+        elif isinstance(x, dict):
+            x.clear()
+            x[JUNK] = 7
+        elif isinstance(x, np.ndarray):
+            if x.size and x.dtype.kind in "iuf":
+                x += 977
+    except Exception:  # noqa: BLE001
+        pass
+
+
+def as_range(base):
+    """range object listing exactly the int labels `base` in this order, or None"""
+    if not base or not all(type(x) is int and abs(x) < 2 ** 62 for x in base):
+        return None
+    if len(base) == 1:
+        return range(base[0], base[0] + 1)
+    d = base[1] - base[0]
+    if d == 0 or any(base[j + 1] - base[j] != d for j in range(len(base) - 1)):
+        return None
+    return range(base[0], base[-1] + (1 if d > 0 else -1), d)
+
+
+def as_array(objs):
+    """1-d numpy array whose elements are equal (and hash-equal) to the given labels, or None"""
+    try:
+        if not objs or any(isinstance(x, (tuple, frozenset, bytes)) for x in objs):
+            return None
+        if any(isinstance(x, int) and abs(x) > 2 ** 53 for x in objs):
+            return None
+        with warnings.catch_warnings():
+            warnings.simplefilter("ignore")
+            a = np.array(list(objs))
+        if a.ndim != 1 or a.dtype.kind not in "iufU" or len(a) != len(objs):
+            return None     # (numpy.bool_ raises when it is compared with an int beyond int64: no label)
+        if a.dtype.kind == "f" and any(abs(float(v)) >= 2 ** 53 and float(v) == int(v) for v in a if np.isfinite(v)):
+            return None     # numpy compares float64(2**53) with the int 2**53 + 1 after rounding: not an equal object of ONE label
+        for u, v in zip(a, objs):
+            if not (u == v and hash(u) == hash(v)):
+                return None
+        return a
+    except Exception:  # noqa: BLE001
+        return None
+
+
+# container types the unchanged code takes: a hyperedge / a side of a directed hyperedge is anything iterable (it is
+# sorted into a tuple); node lists and hyperedge lists are listed once (`list(..)`) except where noted at the call
+ONCE = ["tuple"] * 5 + ["list"] * 4 + ["set", "set", "frozenset", "frozenset", "range", "np", "np", "iter", "gen", "dictkeys", "dict", "deque"]
+TWICE = [k for k in ONCE if k not in ("iter", "gen")]
+HASHABLE = ["tuple", "tuple", "frozenset"]
+OUTER = ["list"] * 5 + ["tuple"] * 3 + ["iter", "gen", "dictkeys", "set", "frozenset", "deque"]
+OUTER_SIZED = ["list", "list", "tuple"]
+
+# positional parameter order of the unchanged signatures (after self / hg and the node)
+POS_OS = ("order", "size")
+POS_SO = ("size", "order")
+METHOD_POS = {"degree": POS_OS, "degree_sequence": POS_OS, "degree_distribution": POS_OS, "get_neighbors": POS_OS,
+              "get_incident_edges": POS_OS}          # every other Hypergraph method: (size, order)
+
+
+class Pres:
+    """HOW a call is written: label objects, container types, calling style; deterministic per (seed, call tag)"""
+
+    def __init__(self, seed, npok=True):
+        self.seed = seed
+        self.npok = npok          # numpy scalars only in a universe of ONE comparable group: `numpy.int64(5) == (0, 1)` is an
+        self.handed = []          # array, not False, so a numpy scalar is no label next to tuple labels (`x in list` raises)
+
+    def at(self, tag):
+        r = Mini(self.seed, tag)
+        r.npok = self.npok
+        return r
+
+    def give(self, x):
+        if isinstance(x, (list, set, dict, collections.deque, np.ndarray)):
+            self.handed.append(x)
+        return x
+
+    def settle(self):
+        """aliasing IN: after the call the caller's containers are his again"""
+        for x in self.handed:
+            scribble(x, 1)
+        self.handed = []
+
+    def box(self, r, objs, kinds):
+        """the labels objs in a container of a kind drawn from `kinds` (falls back to tuple / list)"""
+        kind = r.choice(kinds)
+        if kind == "list":
+            return self.give(list(objs))
+        if kind == "set":
+            return self.give(set(objs))
+        if kind == "frozenset":
+            return frozenset(objs)
+        if kind == "iter":
+            return iter(list(objs))
+        if kind == "gen":
+            return (y for y in list(objs))
+        if kind == "dictkeys":
+            return dict.fromkeys(objs).keys()
+        if kind == "dict":
+            return self.give(dict.fromkeys(objs, 1))
+        if kind == "deque":
+            return self.give(collections.deque(objs))
+        if kind == "range":
+            rg = as_range([int(y) for y in objs]) if all(isinstance(y, (int, np.integer)) and not isinstance(y, bool) for y in objs) else None
+            return rg if rg is not None else tuple(objs)
+        if kind == "np":
+            a = as_array(objs) if self.npok else None
+            return self.give(a) if a is not None else self.give(list(objs))
+        return tuple(objs)
+
+    def edge(self, r, xs, kinds=ONCE):
+        return self.box(r, [fresh(x, r) for x in r.shuffled(xs)], kinds)
+
+    def nodes(self, r, xs, kinds=ONCE):
+        return self.box(r, [fresh(x, r) for x in xs], kinds)
+
+    def edges(self, r, es, inner=ONCE, outer=OUTER):
+        o = r.choice(outer)
+        if o in ("dictkeys", "set", "frozenset"):
+            inner = HASHABLE
+        items = [self.edge(r, e, inner) for e in es]
+        if o in ("set", "frozenset", "dictkeys") and len(set(items)) != len(items):
+            o = "list"                   # equal presentations of two hyperedges: a set would swallow one call
+        return self.box(r, items, [o])
+
+    def filt(self, r, f, pos):
+        """(args, kwargs) of the filter: by keyword, by position (the unchanged signature's order), None given explicitly,
+        the value as int or numpy integer"""
+        c = r.random()
+        if f is None:
+            if c < 0.6:
+                return (), {}
+            if c < 0.75:
+                return (), {"order": None, "size": None}
+            if c < 0.85:
+                return (), {pos[0]: None}
+            return ((None,), {}) if c < 0.93 else ((None, None), {})
+        name, v = f
+        if abs(v) < 2 ** 62 and r.random() < 0.2:
+            v = np.int64(v)
+        other = "size" if name == "order" else "order"
+        if c < 0.6:
+            return (), {name: v}
+        if c < 0.72:
+            return (), {name: v, other: None}
+        if pos.index(name) == 0:
+            return ((v,), {}) if c < 0.9 else ((v, None), {})
+        return ((None, v), {}) if c < 0.9 else ((None,), {name: v})
+
+
+# ------------------------------------------------------------------------------------------
 # generators
 
-def gen_labels(rng, n):
-    if rng.random() < 0.3:
-        pool = [chr(97 + i) * rng.randint(1, 2) for i in range(20)] + ["E1", "N0", "Z", "10", "9", "", "0"]
-        labels = rng.sample(sorted(set(pool)), n)
-        falsy = ""
-    elif rng.random() < 0.2:
-        labels, falsy = rng.sample(range(-5, 40), n), 0
+BIG = [257, 258, 300, 1000, 1001, 4096, 65536, 2 ** 31 - 1, 2 ** 31, 2 ** 53 - 1, 2 ** 53, 2 ** 53 + 1, 2 ** 63 - 1, 2 ** 63,
+       2 ** 64 + 3, 10 ** 30, 10 ** 30 + 1, -6, -7, -300, -1000, -2 ** 31 - 1, -2 ** 53 - 1, -2 ** 63, -2 ** 63 - 1, -10 ** 30]
+STRS = ([chr(97 + i) * k for i in range(12) for k in (1, 2)] + ["E1", "N0", "Z", "10", "9", "", "0", "2", "100", "1000", "-1", " ",
+        "node-17", "node-3", "a b", "A", "é", "(0, 1)"])
+FLOATS = [0.5, 1.5, -0.5, 2.25, 2.5, -2.5, 0.1, 1e300, -1e300, 1e-300, float("inf"), float("-inf")]
+BYTES = [b"", b"a", b"b", b"ab", b"ba", b"abc", b"10", b"9", b"Z", b"\x00", b"\xff", b"\x00\x01", b"node-1"]
+TUPLES = ([(r, c) for r in range(3) for c in range(4)] + [(), (0,), (1,), (1, 2, 3), (0, 0, 0), (300, 5), (10 ** 30, 1), (-1, 0), (2, 10 ** 30)])
+UNIVERSES = (["small"] * 18 + ["sparse"] * 7 + ["big"] * 17 + ["str"] * 17 + ["float"] * 8 + ["tuple"] * 12 + ["tuple+int"] * 7
+             + ["fset"] * 4 + ["fset+int"] * 4 + ["bytes"] * 5 + ["str+int"])
+FALSY = {"small": 0, "sparse": 0, "big": 0, "str": "", "float": 0, "tuple": (), "tuple+int": 0, "fset": frozenset(),
+         "fset+int": frozenset(), "bytes": b"", "str+int": ""}
+
+
+def gen_labels(rng, n, kind="H"):
+    """n distinct labels of one universe; returns (labels, universe name)"""
+    uni = rng.choice(UNIVERSES)
+    if uni.startswith("tuple") and kind not in ("H", "D"):
+        uni = "big" if uni == "tuple" else "str"    # D49 / D50: Temporal / Multiplex read a pair of tuples as a directed pair
+    if uni == "small":
+        pool = list(range(0, 12))
+    elif uni == "sparse":
+        pool = list(range(-5, 40))
+    elif uni == "big":
+        pool = BIG + rng.sample(range(0, 12), 3)
+    elif uni == "str":
+        pool = sorted(set(STRS))
+    elif uni == "str+int":
+        pool = rng.sample(sorted(set(STRS)), 6) + rng.sample(range(0, 12), 5)
+    elif uni == "float":
+        pool = FLOATS + [0, 1, 2, 3, -1, 10, 300]
+    elif uni == "bytes":
+        pool = list(BYTES)
+    elif uni == "tuple":
+        pool = list(TUPLES)
+    elif uni == "tuple+int":
+        # tuples NEXT TO their own members: (0, 1) is a node, 0 and 1 are nodes as well
+        pool = [0, 1, 2, 3, (0, 1), (2, 3), (0, 2), (1,), (0, 1, 2), (3, 0), (1, 1), (2,)]
     else:
-        labels, falsy = rng.sample(range(0, 12), n), 0
-    if n and falsy not in labels and rng.random() < 0.6:
-        labels[rng.randrange(n)] = falsy          # the falsy label (0 / '') is a node like any other
-    return labels
+        base = rng.sample(list(range(0, 12)) if rng.random() < 0.7 else ["a", "b", "c", "dd", "10", "9", "", "e", "f", "g", "h", "i"], 12)
+        pool = [frozenset(base[:k]) for k in range(0, 12)]          # a chain: totally ordered by <
+        if uni == "fset+int":
+            pool = pool[:7] + [x for x in base[:6] if not isinstance(x, str)]
+    labels = rng.sample(pool, min(n, len(pool)))
+    falsy = FALSY[uni]
+    if labels and falsy not in labels and rng.random() < 0.6:
+        labels[rng.randrange(len(labels))] = falsy          # the falsy label (0 / '' / () / frozenset() / b'') is a node like any other
+    return labels, uni
+
+
+def sample_group(rng, pool, k):
+    """k labels of ONE comparable group of the pool (a hyperedge is sorted)"""
+    x0 = rng.choice(pool)
+    same = [y for y in pool if grp(y) == grp(x0)]
+    return rng.sample(same, min(k, len(same)))
 
 
 def gen_edge_sets(rng, labels):
@@ -94,14 +473,14 @@ def gen_edge_sets(rng, labels):
             size = rng.choice([2, 3])
         else:
             size = rng.choice([1, 2, 2, 3, 3, 4, 5])
-        size = min(size, n)
-        out.append(rng.sample(labels, size))
+        out.append(sample_group(rng, labels, min(size, n)))
     return out
 
 
 def gen_h(rng):
     n = rng.choice([0, 1, 2, 3, 4, 5, 6, 6, 7, 7, 8, 8, 9, 9])
-    labels = gen_labels(rng, n)
+    labels, uni = gen_labels(rng, n)
+    n = len(labels)
     edges = gen_edge_sets(rng, labels[: max(1, n - rng.randint(0, 2))] if n else [])
     ops = [["n", x] for x in labels if rng.random() < 0.6] + [["e", e] for e in edges]
     if edges and rng.random() < 0.3:
@@ -116,7 +495,7 @@ def gen_h(rng):
             if op[0] == "n":
                 present_n.add(op[1])
             else:
-                present_e.append(sorted(op[1]))
+                present_e.append(sorted(op[1], key=lkey))
                 present_n.update(op[1])
             r = rng.random()
             if r < 0.15 and present_e:
@@ -127,18 +506,18 @@ def gen_h(rng):
                     out.append(["e", e])
                     present_e.append(e)
             elif r < 0.25 and present_n:
-                x = rng.choice(sorted(present_n, key=repr))
+                x = rng.choice(sorted(present_n, key=lkey))
                 keep = rng.random() < 0.5
                 out.append(["rn", x, keep])
                 present_n.discard(x)
                 present_e = [[y for y in q if y != x] for q in present_e] if keep else [q for q in present_e if x not in q]
         ops = out
-    return {"kind": "H", "ops": ops}
+    return {"kind": "H", "ops": ops, "uni": uni}
 
 
 def gen_other(rng, kind):
     n = rng.choice([1, 2, 3, 4, 5, 6, 7, 8, 9])
-    labels = gen_labels(rng, n)
+    labels, uni = gen_labels(rng, n, kind)
     ops = [["n", x] for x in labels if rng.random() < 0.5]
     for e in gen_edge_sets(rng, labels):
         if kind == "D":
@@ -157,7 +536,7 @@ def gen_other(rng, kind):
             if rng.random() < 0.4:
                 ops.append(["e", list(reversed(e)), rng.choice(["a", "b", "c"])])
     rng.shuffle(ops)
-    return {"kind": kind, "ops": ops}
+    return {"kind": kind, "ops": ops, "uni": uni}
 
 
 # ------------------------------------------------------------------------------------------
@@ -191,12 +570,12 @@ class Shadow:
     def rec(self, op):
         k = self.kind
         if k == "H":
-            return tuple(sorted(op[1]))
+            return tuple(sorted(op[1], key=lkey))
         if k == "D":
-            return (tuple(sorted(op[1][0])), tuple(sorted(op[1][1])))
+            return (tuple(sorted(op[1][0], key=lkey)), tuple(sorted(op[1][1], key=lkey)))
         if k == "T":
-            return (op[2], tuple(sorted(op[1])))
-        return (tuple(sorted(op[1])), op[2])
+            return (op[2], tuple(sorted(op[1], key=lkey)))
+        return (tuple(sorted(op[1], key=lkey)), op[2])
 
     def members(self, r):
         k = self.kind
@@ -286,13 +665,14 @@ def labels_of(case):
 WEIGHTS = [2, 0.5, 3, 1]
 
 
-def new_obj(kind, edge_list=None, weighted=False):
+def new_obj(kind, edge_list=None, weighted=False, P=None, r=None):
     from hypergraphx import Hypergraph, DirectedHypergraph, TemporalHypergraph, MultiplexHypergraph
     if edge_list is not None:
-        if weighted:      # the constructor wants distinct hyperedges when weights are given
-            es = list(dict.fromkeys(tuple(sorted(e)) for e in edge_list))
-            return Hypergraph(edge_list=es, weighted=True, weights=[WEIGHTS[j % 4] for j in range(len(es))])
-        return Hypergraph(edge_list=[tuple(e) for e in edge_list])
+        if weighted:      # the constructor wants distinct hyperedges when weights are given (a sized, hashable listing)
+            es = list(dict.fromkeys(tuple(sorted(e, key=lkey)) for e in edge_list))
+            return Hypergraph(edge_list=P.edges(r, es, HASHABLE, OUTER_SIZED), weighted=True,
+                              weights=[WEIGHTS[j % 4] for j in range(len(es))])
+        return Hypergraph(edge_list=P.edges(r, edge_list, ONCE, [k for k in OUTER if k != "deque" or edge_list]))
     cls = {"H": Hypergraph, "D": DirectedHypergraph, "T": TemporalHypergraph, "M": MultiplexHypergraph}[kind]
     return cls(weighted=True) if weighted else cls()
 
@@ -300,8 +680,10 @@ def new_obj(kind, edge_list=None, weighted=False):
 class World:
     """the objects of one program: shadows always, implementation objects and model lines when `rank` is given"""
 
-    def __init__(self, kind, rank=None, weighted=False):
+    def __init__(self, kind, rank=None, weighted=False, pres=0):
         self.kind, self.rank, self.live, self.weighted = kind, rank, rank is not None, bool(weighted)
+        self.P = Pres(pres or 0, len({grp(x) for x in rank or ()}) <= 1)
+        self.step = 0
         self.sh = [Shadow(kind)]
         self.objs = [new_obj(kind, weighted=self.weighted)] if self.live else [None]
         self.focus = 0
@@ -346,9 +728,19 @@ class World:
 
     def apply(self, op):
         """returns the index of the object to check for a "chk" op, else None"""
+        try:
+            return self._apply(op)
+        finally:
+            self.P.settle()       # aliasing IN: the containers handed to the call are scribbled over afterwards
+
+    def _apply(self, op):
         import copy as _copy
         kind, t, i = self.kind, op[0], self.focus
         s, h = self.sh[i], self.objs[i]
+        P = self.P
+        self.step += 1
+        r = P.at("op%d" % self.step)
+        pair = lambda a, b: [a, b] if r.random() < 0.3 else (a, b)      # noqa: E731 - a (sources, targets) / (nodes, layer) pair
         if t == "on":
             if 0 <= op[1] < len(self.sh):
                 self.focus = op[1]
@@ -365,46 +757,50 @@ class World:
                 self._m("hcp", src)
             else:
                 nodes = [x for x in dict.fromkeys(op[2]) if x in self.sh[src].nodes]
-                self._spawn(src, self.sh[src].sub(nodes), lambda: self.objs[src].subhypergraph(list(nodes)))
+                # subhypergraph walks its argument several times: any re-iterable collection of nodes
+                self._spawn(src, self.sh[src].sub(nodes), lambda: self.objs[src].subhypergraph(P.nodes(r, nodes, TWICE)))
                 self._m("hsub", src, hgxv.enc_list([self.rank[x] for x in nodes]) if self.live else "")
             return None
         self.nops += 1
         if t == "n":
             if self.live:
-                h.add_node(op[1])
+                h.add_node(fresh(op[1], r))
                 self._m("hn", i, self._r(op[1]))
             s.add_node(op[1])
         elif t == "e":
-            r = s.rec(op)
+            rec = s.rec(op)
             if self.live:
                 if kind == "H":
-                    h.add_edge(tuple(op[1]), **self._w())
+                    h.add_edge(P.edge(r, op[1]), **self._w())
                     self._m("he", i, self._e(op[1]))
                 elif kind == "D":
-                    h.add_edge((tuple(op[1][0]), tuple(op[1][1])), **self._w())
+                    h.add_edge(pair(P.edge(r, op[1][0]), P.edge(r, op[1][1])), **self._w())
                 else:
-                    h.add_edge(tuple(op[1]), op[2], **self._w())
-            s.add(r)
+                    h.add_edge(P.edge(r, op[1]), op[2], **self._w())
+            s.add(rec)
         elif t == "re":
-            r = s.rec(op)
-            if r not in s.recs:
+            rec = s.rec(op)
+            if rec not in s.recs:
                 return None
             if self.live:
                 if kind == "H":
-                    h.remove_edge(tuple(op[1]))
+                    h.remove_edge(P.edge(r, op[1]))
                     self._m("hre", i, self._e(op[1]))
                 elif kind == "D":
-                    h.remove_edge((tuple(op[1][0]), tuple(op[1][1])))
+                    h.remove_edge(pair(P.edge(r, op[1][0]), P.edge(r, op[1][1])))
                 elif kind == "T":
-                    h.remove_edge(tuple(op[1]), op[2])
+                    h.remove_edge(P.edge(r, op[1]), op[2])
                 else:
-                    h.remove_edge((tuple(op[1]), op[2]))
-            s.remove(r)
+                    h.remove_edge(pair(P.edge(r, op[1]), op[2]))
+            s.remove(rec)
         elif t == "rn":
             if op[1] not in s.nodes:
                 return None
             if self.live:
-                h.remove_node(op[1], keep_edges=bool(op[2]))
+                if r.random() < 0.3:
+                    h.remove_node(fresh(op[1], r), bool(op[2]))
+                else:
+                    h.remove_node(fresh(op[1], r), keep_edges=bool(op[2]))
                 self._m("hrn", i, self._r(op[1]), 1 if op[2] else 0)
             s.remove_node(op[1], bool(op[2]))
         elif kind != "H":
@@ -412,30 +808,30 @@ class World:
         elif t in ("E", "ctor"):
             if t == "ctor" and self.nops == 1 and len(self.sh) == 1:
                 if self.live:
-                    self.objs[i] = new_obj("H", op[1], self.weighted)
+                    self.objs[i] = new_obj("H", op[1], self.weighted, P, r)
             elif self.live and self.weighted:     # with weights the batch must not repeat a hyperedge (the code rejects it)
-                es = list(dict.fromkeys(tuple(sorted(e)) for e in op[1]))
-                h.add_edges(es, weights=[self._w(j)["weight"] for j in range(len(es))])
+                es = list(dict.fromkeys(tuple(sorted(e, key=lkey)) for e in op[1]))
+                h.add_edges(P.edges(r, es, HASHABLE, OUTER_SIZED), weights=[self._w(j)["weight"] for j in range(len(es))])
             elif self.live:
-                h.add_edges([tuple(e) for e in op[1]])
+                h.add_edges(P.edges(r, op[1]))
             for e in op[1]:
-                s.add(tuple(sorted(e)))
+                s.add(tuple(sorted(e, key=lkey)))
                 self._m("he", i, self._e(e))
         elif t == "RE":
-            es = [r for r in dict.fromkeys(tuple(sorted(e)) for e in op[1]) if r in s.recs]
+            es = [q for q in dict.fromkeys(tuple(sorted(e, key=lkey)) for e in op[1]) if q in s.recs]
             if not es:
                 return None
             if self.live:
-                h.remove_edges(list(es))
-            for r in es:
-                s.remove(r)
-                self._m("hre", i, self._e(r))
+                h.remove_edges(P.edges(r, es, TWICE))      # every hyperedge of the batch is looked at twice (validation, removal)
+            for q in es:
+                s.remove(q)
+                self._m("hre", i, self._e(q))
         elif t == "RN":
             xs = [x for x in dict.fromkeys(op[1]) if x in s.nodes]
             if not xs:
                 return None
             if self.live:
-                h.remove_nodes(list(xs), keep_edges=bool(op[2]))
+                h.remove_nodes(P.nodes(r, xs), keep_edges=bool(op[2]))
             for x in xs:
                 s.remove_node(x, bool(op[2]))
                 self._m("hrn", i, self._r(x), 1 if op[2] else 0)
@@ -454,10 +850,15 @@ class World:
 # observation of the implementation (never raises, except Timeout)
 
 def obs(fn, canon):
+    """one call of the implementation: canonical form of the answer (an exception is an observation); aliasing OUT: whatever
+    mutable object came back is the caller's - it is emptied and scribbled over once it has been read"""
     try:
-        return canon(fn())
+        v = fn()
+        c = canon(v)
+        scribble(v)
+        return c
     except Exception as ex:  # noqa: BLE001 - an exception is an observation
-        return ("exc", type(ex).__name__)
+        return ("exc", ("%s: %s" % (type(ex).__name__, ex))[:160])
 
 
 def is_exc(v):
@@ -466,6 +867,8 @@ def is_exc(v):
 
 def c_int(v):
     if isinstance(v, bool) or not isinstance(v, int):
+        if isinstance(v, (dict, list, tuple, set, frozenset, str, bytes)):
+            raise TypeError("not an integer: %r" % (v,))
         v2 = int(v)
         if v2 != v or isinstance(v, bool):
             raise TypeError("not an integer: %r" % (v,))
@@ -479,37 +882,69 @@ def c_bool(v):
     raise TypeError("not a bool: %r" % (v,))
 
 
-def observe_h(h, nodes, rank, f, api):
-    """all C08 observables of a Hypergraph for one filter, through the methods or the module-level functions"""
+QUERY_NO = {n: i for i, n in enumerate(
+    ["degree", "node_connected_component", "is_isolated", "get_neighbors", "get_incident_edges", "degree_sequence",
+     "degree_distribution", "connected_components", "num_connected_components", "is_connected", "largest_component",
+     "largest_component_size", "isolated_nodes"])}
+
+
+def ranker(rank):
+    def rk(x):
+        try:
+            return rank[x]
+        except (KeyError, TypeError):
+            raise ValueError("%r is listed, which is not a node of the hypergraph" % (x,)) from None
+    return rk
+
+
+def observe_h(h, nodes, rank, f, api, P, ck):
+    """all C08 observables of a Hypergraph for one filter, through the methods or the module-level functions; every call
+    gets freshly constructed label objects and its own calling style (keyword / positional filter, explicit None)"""
     from hypergraphx.measures import degree as D
     from hypergraphx.utils import cc as C
-    k = kw(f)
-    if api == "method":
-        call = lambda name, *a: getattr(h, name)(*a, **k)                      # noqa: E731
-    else:
-        call = lambda name, *a: getattr(D if name.startswith("degree") else C, name)(h, *a, **k)   # noqa: E731
-    c_set = lambda s: tuple(sorted(rank[x] for x in _distinct(s)))              # noqa: E731
+    rk = ranker(rank)
+    canon = list(rank)        # rank -> the canonical label (the stored object may be any equal one)
+
+    base = P.at("%s|%s|%s" % (ck, tok(f), api))
+
+    def call(name, x=None):
+        r = base.fork(QUERY_NO[name] * 64 + (0 if x is None else 1 + rank[x]))
+        if api == "method":
+            fa, fk = P.filt(r, f, METHOD_POS.get(name, POS_SO))
+            fn, pre = getattr(h, name), ()
+        else:
+            fa, fk = P.filt(r, f, POS_OS)
+            fn, pre = getattr(D if name.startswith("degree") else C, name), (h,)
+        if x is not None:
+            pre = pre + (fresh(canon[rank[x]], r),)
+        return fn(*pre, *fa, **fk)
+
+    c_set = lambda s: tuple(sorted(rk(x) for x in _distinct(s)))              # noqa: E731
+    c_edges = lambda l: tuple(sorted(_distinct([tuple(sorted(rk(x) for x in _distinct(e))) for e in l])))     # noqa: E731
     o = {}
     for x in nodes:
         r = rank[x]
         o["deg %d" % r] = obs(lambda: call("degree", x), c_int)
         o["ncomp %d" % r] = obs(lambda: call("node_connected_component", x), c_set)
         o["isiso %d" % r] = obs(lambda: call("is_isolated", x), c_bool)
-    o["seq"] = obs(lambda: call("degree_sequence"), lambda d: tuple(sorted((rank[a], c_int(b)) for a, b in d.items())))
+        if api == "method":       # the two primitives of hypergraph.py everything else is read from
+            o["nbrs %d" % r] = obs(lambda: call("get_neighbors", x), c_set)
+            o["inc %d" % r] = obs(lambda: call("get_incident_edges", x), c_edges)
+    o["seq"] = obs(lambda: call("degree_sequence"), lambda d: tuple(sorted((rk(a), c_int(b)) for a, b in d.items())))
     o["dist"] = obs(lambda: call("degree_distribution"), lambda d: tuple(sorted((c_int(a), c_int(b)) for a, b in d.items())))
     o["cc"] = obs(lambda: call("connected_components"), lambda cs: tuple(sorted(c_set(c) for c in cs)))
     o["ncc"] = obs(lambda: call("num_connected_components"), c_int)
     o["conn"] = obs(lambda: call("is_connected"), c_bool)
     o["largest"] = obs(lambda: call("largest_component"), c_set)
     o["lsize"] = obs(lambda: call("largest_component_size"), c_int)
-    o["iso"] = obs(lambda: call("isolated_nodes"), lambda l: tuple(sorted(rank[x] for x in _distinct(l))))
+    o["iso"] = obs(lambda: call("isolated_nodes"), c_set)
     return o
 
 
 def _distinct(s):
     s = list(s)
     if len(set(s)) != len(s):
-        raise ValueError("listing repeats a node: %r" % (s,))
+        raise ValueError("listing repeats an item: %r" % (s,))
     return s
 
 
@@ -542,6 +977,9 @@ def oracle_h(nodes_r, edges_r, f):
         o["deg %d" % x] = degs[x]
         o["ncomp %d" % x] = cls_of[x]
         o["isiso %d" % x] = isolated[x]
+        inc = sorted({tuple(sorted(e)) for e in ef if x in e})
+        o["inc %d" % x] = tuple(inc)
+        o["nbrs %d" % x] = tuple(sorted({y for e in inc for y in e if y != x}))
     o["seq"] = tuple(sorted(degs.items()))
     hist = {}
     for d in degs.values():
@@ -573,7 +1011,9 @@ def parse_model(name, a):
         return tuple(sorted(tuple(int(t) for t in it.split(":")) for it in a.split(","))) if a != "-" else ()
     if head == "cc":
         return tuple(sorted(tuple(sorted(c)) for c in hgxv.dec_lists(a)))
-    if head in ("ncomp", "largest", "iso"):
+    if head == "inc":
+        return tuple(sorted(tuple(sorted(c)) for c in hgxv.dec_lists(a)))
+    if head in ("ncomp", "largest", "iso", "nbrs"):
         return tuple(sorted(hgxv.dec_list(a)))
     raise ValueError(name)
 
@@ -595,12 +1035,15 @@ class Capped:
 
 def content_ok(ctx, where, h, s, listing):
     """get_nodes()/get_edges() against the content the history defines; returns (nodes, records) or None"""
-    nodes = list(h.get_nodes())
-    recs = [listing(e) for e in h.get_edges()]
+    raw_n, raw_e = h.get_nodes(), h.get_edges()
+    nodes = list(raw_n)
+    recs = [listing(e) for e in raw_e]
+    scribble(raw_n)          # aliasing OUT: the listings are the caller's
+    scribble(raw_e, 1)
     if len(set(nodes)) != len(nodes) or set(nodes) != set(s.nodes) or len(set(recs)) != len(recs) or set(recs) != set(s.recs):
         ctx.violation(where, f"after this history the object lists nodes {sorted(nodes, key=repr)} / hyperedges "
                              f"{sorted(recs, key=repr)}; the history defines nodes {sorted(s.nodes, key=repr)} / hyperedges "
-                             f"{sorted(s.recs, key=repr)}")
+                             f"{sorted(s.recs, key=repr)}"[:1500])
         return None
     return nodes, recs
 
@@ -608,7 +1051,8 @@ def content_ok(ctx, where, h, s, listing):
 def check_h(ctx, case, w, i, filters=None):
     """one check of object i (runs under the watchdog): the implementation against the definitions evaluated on the
     content the history defines; returns the model dialogue"""
-    h, s, rank = w.objs[i], w.sh[i], w.rank
+    h, s, rank, P = w.objs[i], w.sh[i], w.rank, w.P
+    ck = "c%d" % case.get("check", 0)
     got = content_ok(ctx, case, h, s, tuple)
     if got is None:
         return [], []
@@ -621,7 +1065,9 @@ def check_h(ctx, case, w, i, filters=None):
     lines = [f"hshow {i}", f"huse {i}"]
     expect = [("content", sorted(sorted(e) for e in edges_r), sorted(nodes_r)), ("ok",)]
     nontrivial = False
-    filters = filters or FILTERS
+    filters = list(filters or FILTERS)
+    rx = P.at(ck + "|rare-filters")
+    filters += [rx.choice(RARE_FILTERS) for _ in range(2 if len(filters) > len(SMALL_FILTERS) else 0)]
     for f in filters:
         orc, classes, nt = oracle_h(nodes_r, edges_r, f)
         nontrivial = nontrivial or nt
@@ -630,15 +1076,18 @@ def check_h(ctx, case, w, i, filters=None):
             ctx.count("filter_evaluations_nontrivial")
         seen = {}
         for api in ("method", "module"):
-            o = observe_h(h, nodes, rank, f, api)
+            o = observe_h(h, nodes, rank, f, api, P, ck)
             seen[api] = o
             for name, want in orc.items():
+                if name not in o:
+                    continue        # get_neighbors / get_incident_edges are methods only
                 got = o[name]
                 where = {**case, "filter": tok(f), "api": api, "query": name}
                 if name in ("largest", "lsize") and not classes:
                     continue        # no component exists: nothing to be consistent with (the code raises)
                 if is_exc(got):
                     report(where, f"{api} {name} {kw(f)} raised {got[1]} on a valid node/filter")
+                    ctx.count("violations_by_exception")
                 elif name == "largest":
                     if got not in classes or len(got) != orc["lsize"]:
                         report(where, f"{api} largest_component {kw(f)} = {got}: not a reachability class of maximal "
@@ -647,7 +1096,7 @@ def check_h(ctx, case, w, i, filters=None):
                     report(where, f"{api} {name} {kw(f)} = {got}, the definition gives {want}")
         for name in orc:
             lines.append(f"{name.split()[0]} {' '.join(name.split()[1:] + [tok(f)])}")
-            expect.append(("q", name, f, seen["method"][name], seen["module"][name], classes))
+            expect.append(("q", name, f, seen["method"][name], seen["module"].get(name), classes))
     ctx.case(key, nontrivial, sample=case)
     ctx.count("nodes_total", len(nodes))
     ctx.count("hyperedges_total", len(edges))
@@ -715,7 +1164,10 @@ def compare(ctx, drv, case, lines, expect):
 def check_other(ctx, case, w, i):
     from hypergraphx.measures import degree as D
     kind = case["kind"]
-    h, s, rank = w.objs[i], w.sh[i], w.rank
+    h, s, rank, P = w.objs[i], w.sh[i], w.rank, w.P
+    ck = "c%d" % case.get("check", 0)
+    rk = ranker(rank)
+    canon = list(rank)
     listing = {"D": lambda e: (tuple(e[0]), tuple(e[1])), "T": lambda e: (e[0], tuple(e[1])),
                "M": lambda e: (tuple(e[0]), e[1])}[kind]
     got = content_ok(ctx, case, h, s, listing)
@@ -729,51 +1181,77 @@ def check_other(ctx, case, w, i):
         lines = ["dload " + hgxv.enc_lists([[rank[x] for x in k[0]] for k in keys]) + " "
                  + hgxv.enc_lists([[rank[x] for x in k[1]] for k in keys]) + " " + hgxv.enc_list(nodes_r)]
         pre = "d"
+        rkeys = [(tuple(rank[x] for x in k[0]), tuple(rank[x] for x in k[1])) for k in keys]
     else:
         lines = ["gload " + hgxv.enc_lists([[rank[x] for x in m] for m in members]) + " " + hgxv.enc_list(nodes_r)]
         pre = "g"
+        rkeys = [(k[0], tuple(rank[x] for x in k[1])) if kind == "T" else (tuple(rank[x] for x in k[0]), k[1]) for k in keys]
     expect = [("ok",)]
-    key = repr((kind, nodes_r, sorted(zip([tuple(rank[x] for x in m) for m in members], map(repr, keys)))))
+    key = repr((kind, nodes_r, sorted(map(repr, rkeys))))
     kept = excl = False
-    for f in FILTERS:
+    rx = P.at(ck + "|rare-filters")
+    for f in FILTERS + [rx.choice(RARE_FILTERS) for _ in range(2)]:
         ws = want_size(f)
         k = kw(f)
-        idx = [i for i in range(len(keys)) if ws is None or len(members[i]) == ws]
-        degs = {x: len({keys[i] for i in idx if x in members[i]}) for x in nodes}     # DISTINCT records containing x
+        idx = [j for j in range(len(keys)) if ws is None or len(members[j]) == ws]
+        degs = {x: len({keys[j] for j in idx if x in members[j]}) for x in nodes}     # DISTINCT records containing x
         kept = kept or bool(idx)
         excl = excl or len(idx) < len(keys)
         if kind == "M" and f is not None:
             # D18 (property C04): MultiplexHypergraph.get_incident_edges has no order/size -> TypeError.
             probe = obs(lambda: h.degree(nodes[0], **k) if nodes else 0, c_int)
-            if probe == ("exc", "TypeError"):
+            if is_exc(probe) and probe[1].startswith("TypeError"):
                 ctx.count("multiplex_filtered_degree_skipped_TypeError_D18")
                 continue
         ctx.count("filter_evaluations_" + kind)
+
+        bases = {api: P.at("%s|%s|%s" % (ck, tok(f), api)) for api in ("method", "module")}
+
+        def call(api, name, x=None):
+            r = bases[api].fork(QUERY_NO[name] * 64 + (0 if x is None else 1 + rank[x]))
+            fa, fk = P.filt(r, f, POS_OS)          # methods and functions: (.., order, size)
+            fn, pre_a = (getattr(h, name), ()) if api == "method" else (getattr(D, name), (h,))
+            if x is not None:
+                pre_a = pre_a + (fresh(canon[rank[x]], r),)
+            return fn(*pre_a, *fa, **fk)
+
+        def c_inc(l):
+            l = list(l)
+            for e in l:
+                listing(e)
+                for y in s.members(listing(e)):
+                    rk(y)
+            return len(_distinct([listing(e) for e in l]))
+
         o_m, o_f = {}, {}
         for x in nodes:
-            o_m["deg %d" % rank[x]] = obs(lambda: h.degree(x, **k), c_int)
-            o_f["deg %d" % rank[x]] = obs(lambda: D.degree(h, x, **k), c_int)
-        c_seq = lambda d: tuple(sorted((rank[a], c_int(b)) for a, b in d.items()))        # noqa: E731
+            o_m["deg %d" % rank[x]] = obs(lambda: call("method", "degree", x), c_int)
+            o_f["deg %d" % rank[x]] = obs(lambda: call("module", "degree", x), c_int)
+            # the primitive the degree is read from: it lists distinct records, and the list is the caller's
+            o_m["ninc %d" % rank[x]] = obs(lambda: call("method", "get_incident_edges", x), c_inc)
+        c_seq = lambda d: tuple(sorted((rk(a), c_int(b)) for a, b in d.items()))          # noqa: E731
         c_dist = lambda d: tuple(sorted((c_int(a), c_int(b)) for a, b in d.items()))      # noqa: E731
-        o_m["seq"] = obs(lambda: h.degree_sequence(**k), c_seq)
-        o_f["seq"] = obs(lambda: D.degree_sequence(h, **k), c_seq)
+        o_m["seq"] = obs(lambda: call("method", "degree_sequence"), c_seq)
+        o_f["seq"] = obs(lambda: call("module", "degree_sequence"), c_seq)
         if hasattr(h, "degree_distribution"):
-            o_m["dist"] = obs(lambda: h.degree_distribution(**k), c_dist)
-        o_f["dist"] = obs(lambda: D.degree_distribution(h, **k), c_dist)
+            o_m["dist"] = obs(lambda: call("method", "degree_distribution"), c_dist)
+        o_f["dist"] = obs(lambda: call("module", "degree_distribution"), c_dist)
         hist = {}
         for d in degs.values():
             hist[d] = hist.get(d, 0) + 1
         orc = {"deg %d" % rank[x]: degs[x] for x in nodes}
         orc["seq"] = tuple(sorted((rank[x], d) for x, d in degs.items()))
         orc["dist"] = tuple(sorted(hist.items()))
-        assert sum(degs.values()) == sum(len(members[i]) for i in idx)
+        assert sum(degs.values()) == sum(len(members[j]) for j in idx)
         for api, o in (("method", o_m), ("module", o_f)):
             for name, got in o.items():
                 where = {**case, "filter": tok(f), "api": api, "query": name}
+                want = degs_by_rank(orc, name)
                 if is_exc(got):
                     report(where, f"{kind} {api} {name} {k} raised {got[1]} on a valid node/filter")
-                elif got != orc[name]:
-                    report(where, f"{kind} {api} {name} {k} = {got}, the definition gives {orc[name]}")
+                    ctx.count("violations_by_exception")
+                elif got != want:
+                    report(where, f"{kind} {api} {name} {k} = {got}, the definition gives {want}")
         for name in orc:
             lines.append(f"{pre}{name.split()[0]} {' '.join(name.split()[1:] + [tok(f)])}")
             expect.append(("q", name, f, o_m.get(name), o_f[name], None))
@@ -782,18 +1260,24 @@ def check_other(ctx, case, w, i):
     return lines, expect
 
 
+def degs_by_rank(orc, name):
+    """`ninc x` (number of listed incident records) has the degree as its definition"""
+    return orc["deg " + name.split()[1]] if name.startswith("ninc ") else orc[name]
+
+
 WATCHDOG_S = 5        # one check of one object takes ~10 ms
 
 
 def check_case(ctx, drv, case, filters=None):
     """run the program of `case`, check the objects it asks for and every object at the end"""
     kind = case["kind"]
-    case = {**case, "ops": [list(op) for op in case["ops"]]}
+    case = {**case, "ops": [list(op) for op in case["ops"]]}        # labels in JSON form (what a replay file holds)
+    real = {**case, "ops": [map_op(kind, op, dec_label) for op in case["ops"]]}
     lines, expect = [], []
+    universe = sorted(set(labels_of(real)), key=lkey)               # rank = position in sorted order (per comparable group)
+    rank = {x: i for i, x in enumerate(universe)}
     try:
-        universe = sorted(set(labels_of(case)))
-        rank = {x: i for i, x in enumerate(universe)}
-        w = World(kind, rank, case.get("weighted", False))
+        w = World(kind, rank, case.get("weighted", False), case.get("pres", 0))
     except Exception as ex:  # noqa: BLE001
         ctx.violation(case, f"creating an empty hypergraph raised {type(ex).__name__}: {ex}")
         return
@@ -816,7 +1300,7 @@ def check_case(ctx, drv, case, filters=None):
         w.checked[i], w.touched[i] = True, False
 
     def body():
-        for op in case["ops"]:
+        for op in real["ops"]:
             i = w.apply(op)
             if i is not None:
                 check(i)
@@ -844,6 +1328,7 @@ def check_case(ctx, drv, case, filters=None):
         ctx.count("programs_on_weighted_hypergraphs")
     for t in {op[0] for op in case["ops"]}:
         ctx.count("programs_with_op_" + t)
+    ctx.count("programs_universe_" + str(case.get("uni", "?")))
     if drv is not None and lines:
         compare(ctx, drv, case, lines, expect)
 
@@ -871,9 +1356,11 @@ def fresh_record(rng, kind, s, labels, size=None):
     for _ in range(6):
         k = size if size is not None else rng.choice([1, 2, 2, 3, 3, 4])
         k = max(lo, min(k, len(pool)))
-        e = rng.sample(pool, k)
+        e = sample_group(rng, pool, k)
+        if len(e) < lo:
+            continue
         if size is None and rng.random() < 0.2:
-            extra = [x for x in labels if x not in e]
+            extra = [x for x in labels if x not in e and grp(x) == grp(e[0])]
             if extra:
                 e.append(rng.choice(extra))
         op = make_op(rng, kind, e)
@@ -928,16 +1415,33 @@ def gen_swap(rng, kind, s, labels, removed):
     return [op_of_rec(kind, rec, "re"), op]
 
 
-ROUTES = ["plain"] * 7 + ["detour"] * 3 + ["copy"] * 3 + ["copied"] * 3 + ["requery"] * 3 + ["random"] * 4
+ROUTES = ["plain"] * 7 + ["detour"] * 3 + ["copy"] * 3 + ["copied"] * 3 + ["requery"] * 3 + ["random"] * 4 + ["sub"] * 2
+
+
+def sub_nodes(rng, s, p_all=0.2):
+    """node list of a subhypergraph call: all nodes (in another order), none, or a random part"""
+    nodes = list(s.nodes)
+    r = rng.random()
+    if r < p_all:
+        return rng.sample(nodes, len(nodes))
+    if r < p_all + 0.08:
+        return []
+    return rng.sample(nodes, rng.randint(0, len(nodes)))
 
 
 def gen_program(rng, kind):
-    base = (gen_h(rng) if kind == "H" else gen_other(rng, kind))["ops"]
+    """a program in JSON form (labels encoded), with the seed of its presentation"""
+    return enc_case({**gen_program_real(rng, kind), "pres": rng.getrandbits(32)})
+
+
+def gen_program_real(rng, kind):
+    g = gen_h(rng) if kind == "H" else gen_other(rng, kind)
+    base, uni = g["ops"], g["uni"]
     route = rng.choice(ROUTES)
     labels = list(dict.fromkeys(labels_of({"kind": kind, "ops": base})))
     weighted = rng.random() < 0.2       # a weighted hypergraph is a hypergraph: its degrees count hyperedges
     if route == "plain" or not labels:
-        return {"kind": kind, "ops": base, "route": "plain", "weighted": weighted}
+        return {"kind": kind, "ops": base, "route": "plain", "weighted": weighted, "uni": uni}
     if kind == "H" and rng.random() < 0.2:
         # the hyperedges arrive through the constructor
         base = [["ctor", [op[1] for op in base if op[0] == "e"]]] + [op for op in base if op[0] != "e"]
@@ -989,6 +1493,14 @@ def gen_program(rng, kind):
         if rng.random() < 0.3:
             add(["chk", 1])
             muts(rng.randint(1, 2))
+    elif route == "sub":         # a subhypergraph (boundary: on ALL nodes, on none) and its source, one of them mutated afterwards
+        if kind == "H":
+            add(["sub", 0, sub_nodes(rng, w.sh[0], 0.5)])
+        else:
+            add(["cp", 0])
+        if rng.random() < 0.5:
+            add(["on", 1])
+        muts(rng.randint(1, 3))
     elif route == "requery":     # the same object queried, mutated in place, queried again
         add(["chk"])
         muts(rng.randint(1, 2), swap=rng.random() < 0.6)
@@ -1001,15 +1513,14 @@ def gen_program(rng, kind):
                 add(["cp", rng.randrange(len(w.sh))])
             elif r < 0.32 and kind == "H" and len(w.sh) < MAX_OBJS:
                 src = rng.randrange(len(w.sh))
-                nodes = list(w.sh[src].nodes)
-                add(["sub", src, rng.sample(nodes, rng.randint(0, len(nodes)))])
+                add(["sub", src, sub_nodes(rng, w.sh[src])])
             elif r < 0.50:
                 add(["on", rng.randrange(len(w.sh))])
             elif r < 0.62:
                 add(["chk", rng.randrange(len(w.sh))])
             else:
                 muts(rng.randint(1, 3), swap=rng.random() < 0.2)
-    return {"kind": kind, "ops": ops, "route": route, "weighted": weighted}
+    return {"kind": kind, "ops": ops, "route": route, "weighted": weighted, "uni": uni}
 
 
 SMALL_FILTERS = [None, ("size", 0), ("size", 1), ("size", 2), ("size", 3), ("size", 4), ("size", 5),
@@ -1024,10 +1535,16 @@ def stop(ctx, reserve=8):
 def run(ctx):
     drv = ctx.driver() if ctx.model_available else None
     # fixed seeds of the search: D23's shape (a size-2 path next to a size-3 hyperedge), empty hypergraph, one node
-    for case in ({"kind": "H", "ops": [["e", [1, 2]], ["e", [2, 3, 4]], ["e", [4, 5]], ["n", 9], ["e", [7]]]},
-                 {"kind": "H", "ops": []}, {"kind": "H", "ops": [["n", "a"]]}):
+    for case in ({"kind": "H", "ops": [["e", [1, 2]], ["e", [2, 3, 4]], ["e", [4, 5]], ["n", 9], ["e", [7]]], "pres": 1},
+                 {"kind": "H", "ops": [], "pres": 2}, {"kind": "H", "ops": [["n", "a"]], "pres": 3},
+                 # labels that are containers themselves, next to their own members; singleton hyperedges on nodes that
+                 # were inserted by another call (another object)
+                 enc_case({"kind": "H", "pres": 4, "ops": [["e", [0]], ["e", [1]], ["e", [0, 1]], ["e", [(0, 1), (2, 3)]],
+                                                           ["e", [(0, 1)]], ["n", (2, 3)], ["e", [1000, 2000]], ["e", [1000]]]}),
+                 enc_case({"kind": "D", "pres": 5, "ops": [["e", [[(0, 1)], [(0, 2), (1, 1)]]], ["e", [[(1, 1)], [(0, 1)]]],
+                                                           ["n", (5, 5)]]})):
         check_case(ctx, drv, case)
-    n = ctx.scale(900, 5000)
+    n = ctx.scale(650, 3000)
     for i in range(n):
         if stop(ctx):
             break
@@ -1042,12 +1559,13 @@ def run(ctx):
                 ctx.assumptions.append(f"exhaustive 4-node enumeration stopped at mask {mask} (time budget)")
                 break
             es = [subsets[i] for i in range(len(subsets)) if mask >> i & 1]
-            case = {"kind": "H", "ops": [["n", x] for x in range(4)] + [["e", e] for e in es]}
+            case = {"kind": "H", "ops": [["n", x] for x in range(4)] + [["e", e] for e in es], "pres": mask}
             check_case(ctx, drv, case, SMALL_FILTERS)
             ctx.count("exhaustive_4node_hypergraphs")
 
 
 def replay(ctx, case):
     drv = ctx.driver() if ctx.model_available else None
-    case = {"kind": case["kind"], "ops": case["ops"], "weighted": bool(case.get("weighted", False))}
+    case = {"kind": case["kind"], "ops": case["ops"], "weighted": bool(case.get("weighted", False)),
+            "pres": case.get("pres", 0), "uni": case.get("uni", "?")}
     check_case(ctx, drv, case)
